@@ -18,7 +18,7 @@ func init() {
 		ID: "C16",
 		Meta: core.Meta{
 			Level:       "other",
-			Explanation: "Five narrow structural obligations of RFC 6901 resolution, each a necessary condition: (R16.1) the tilde table is exactly {~1→/, ~0→~}, applied in one simultaneous pass (one strings.Replacer) or ~1 before ~0, and the identity fast path is guarded by a Contains test for every key; (R16.2) unescaping is applied per token, to the piece produced by the '/' split, and its result is what member/index lookup receives — never to the unsplit pointer; (R16.3) for the '#' form percent-decoding happens before the split (find receives url.PathUnescape's result or url.Parse().Fragment, never a raw slice of a '#' pointer); (R16.4) member lookup is string equality of key.Value with the token, returning the value adjacent to that key; sequence lookup parses base-10 unsigned and indexes the same children; (R16.5) every bounds check of package jsonpointer the compiler cannot prove is discharged by a guard or a reviewed table entry. Which node an arbitrary (document, pointer) pair designates is a runtime-value relation and is NOT decided (e.g. leading-zero indices like /01 are accepted).",
+			Explanation: "Five narrow structural obligations of RFC 6901 resolution, each a necessary condition: (R16.1) the tilde table is exactly {~1→/, ~0→~}, applied in one simultaneous pass (one strings.Replacer) or ~1 before ~0, and the identity fast path is guarded by a Contains test for every key; (R16.2) unescaping is applied per token, to the piece produced by the '/' split, and its result is what member/index lookup receives — never to the unsplit pointer; (R16.3) for the '#' form percent-decoding happens before the split (find receives url.PathUnescape's result or url.Parse().Fragment, never a raw slice of a '#' pointer); (R16.4) member lookup is string equality of key.Value with the token, returning the value adjacent to that key; sequence lookup refuses a leading zero, parses base-10 unsigned and indexes the same children; (R16.5) every bounds check of package jsonpointer the compiler cannot prove is discharged by a guard or a reviewed table entry. Which node an arbitrary (document, pointer) pair designates is a runtime-value relation and is NOT decided.",
 			Assumptions: []string{"yaml mapping nodes have an even number of children (key/value pairs) — yaml.v3 invariant"},
 			TrustedBase: []string{"tables/panic_justified.json", "compiler check_bce"},
 		},
@@ -487,6 +487,35 @@ func checkFindIdx(c *core.Ctx, r *core.Rule, fn *ssa.Function) {
 			base, _ := core.ConstInt(call.Common().Args[1])
 			if call.Common().Args[0] == ssa.Value(part) && base == 10 {
 				r.Pass("findIdx parses the token as base-10 unsigned")
+				// RFC 6901 §4: array-index = "0" / (%x31-39 *DIGIT) — strconv.ParseUint takes "01" for 1, so the
+				// token's first byte has to be compared with '0' on a branch whose true edge does not reach the parse
+				guarded := false
+				for _, b := range fn.Blocks {
+					for _, in := range b.Instrs {
+						bo, ok := in.(*ssa.BinOp)
+						if !ok || (bo.Op != token.EQL && bo.Op != token.NEQ) {
+							continue
+						}
+						idx, isIdx := bo.X.(*ssa.Index)
+						k, isC := core.ConstInt(bo.Y)
+						if !isIdx || !isC || k != '0' || idx.X != ssa.Value(part) {
+							continue
+						}
+						if i0, ok := core.ConstInt(idx.Index); !ok || i0 != 0 {
+							continue
+						}
+						for _, eb := range core.EdgeBlocks(bo, bo.Op == token.EQL) {
+							if !blockReaches(eb, call.Block()) {
+								guarded = true
+							}
+						}
+					}
+				}
+				if guarded {
+					r.Pass("findIdx refuses a token with a leading zero before it parses it")
+				} else {
+					r.Fail("findIdx:leading-zero", c.Pos(call.Pos()), "the array index token goes to strconv.ParseUint without a leading-zero test: \"/a/01\" designates element 1 and \"/a/000\" element 0, where RFC 6901 (array-index = %x30 / ( %x31-39 *(%x30-39) )) says the pointer does not resolve")
+				}
 			} else {
 				r.Fail("findIdx:parse", c.Pos(call.Pos()), fmt.Sprintf("array index parsed with base %d (RFC 6901: decimal digits only)", base))
 			}
